@@ -90,19 +90,49 @@ class Explorer:
         self.stats = {"prune_queries": 0, "prune_unknown": 0, "prune_s": 0.0, "runs": 0}
 
     # -- feasibility ------------------------------------------------------------------------------
-    def feasible(self, extra):
-        conds = self.base + self.path.condition() + list(extra)
-        if getattr(self.reg, "quot_defs", None):
-            from . import scalars as _sc
-
-            conds = [_sc.expand_quotients(c) for c in conds]
-        if any(c is tm.FALSE for c in conds):
-            return "unsat"
-        script, _, _ = smt.build_script(self.reg, conds, logic=self.logic, want_model=False, timeout_ms=int(self.decide_timeout * 1000))
+    def _check(self, conds, timeout):
+        script, _, _ = smt.build_script(self.reg, conds, logic=self.logic, want_model=False, timeout_ms=int(timeout * 1000))
         t0 = time.time()
-        st, _, _ = self.solver.check(script, (), timeout_s=self.decide_timeout + 2)
+        st, _, _ = self.solver.check(script, (), timeout_s=timeout + 2)
         self.stats["prune_queries"] += 1
         self.stats["prune_s"] += time.time() - t0
+        return st
+
+    def _quot_lemmas(self, rho, exact_conds):
+        """bounds of a named quotient proven in the exact encoding under the current path (cached per path)."""
+        cache = self.path.__dict__.setdefault("_lemmas", {})
+        if rho in cache:
+            return cache[rho]
+        from . import scalars as _sc
+
+        q = _sc.expand_quotients(rho)
+        out = []
+        for g, gx in ((tm.ge(rho, tm.ZERO), tm.ge(q, tm.ZERO)), (tm.le(rho, tm.ONE), tm.le(q, tm.ONE))):
+            if self._check(list(exact_conds) + [tm.not_(gx)], self.decide_timeout) == "unsat":
+                out.append(g)
+        cache[rho] = out
+        return out
+
+    def feasible(self, extra):
+        conds = self.base + self.path.condition() + list(extra)
+        if any(c is tm.FALSE for c in conds):
+            return "unsat"
+        defs = getattr(self.reg, "quot_defs", None)
+        if defs:
+            from . import scalars as _sc
+
+            exact_path = [_sc.expand_quotients(c) for c in self.base + self.path.condition()]
+            rhos = [v for v in tm.free_vars(*conds) if v in defs]
+            if rhos:
+                lem = []
+                for r in rhos:
+                    lem += self._quot_lemmas(r, exact_path)
+                if lem and self._check(conds + lem, min(self.decide_timeout, 5.0)) == "unsat":
+                    return "unsat"  # infeasible already with the quotient generalised to its proven bounds
+            conds = [_sc.expand_quotients(c) for c in conds]
+            if any(c is tm.FALSE for c in conds):
+                return "unsat"
+        st = self._check(conds, self.decide_timeout)
         if st not in ("sat", "unsat"):
             self.stats["prune_unknown"] += 1
             return "unknown"
